@@ -106,7 +106,7 @@ Lemma read_uint_p_small p data size : (size <= 8)%nat ->
 Proof. intros H. unfold read_uint_p, Script.read_uint. destruct (Nat.ltb_spec (length data) size); [reflexivity|].
   destruct (Nat.ltb_spec 8 size); [lia|].
   rewrite read_uint_loop_small; [f_equal; cbn; lia| |cbn; lia]. rewrite firstn_length. cbn. lia. Qed.
-(* since fc1698d an oversized `size` is the error NumericOverflow: no shift can overflow any more, in either profile *)
+(* since 6050d64 an oversized `size` is the error NumericOverflow: no shift can overflow any more, in either profile *)
 Lemma read_uint_p_total p data size w : read_uint_p p data size <> Panic w.
 Proof. destruct (Nat.leb_spec size 8) as [L|L].
   - rewrite read_uint_p_small by lia. destruct (Script.read_uint data size); discriminate.
